@@ -167,6 +167,26 @@ def io_send_cfg(msg, nmsgs, chunk, faults, retry, record, live=False):
     txt += "CHECK_DEADLOCK FALSE\n"
     return {"type": "tlc-only" if not record else "tlc-replay", "module": "MCIoSend", "cfg": name, "cfg_text": txt}
 
+def io_async_cfg(msg, nmsgs, pipecap, chunk, spur, record, live=False):
+    name = "MCIoAsync_%s_n%d_p%d_c%d_s%d%s.cfg" % (msg, nmsgs, pipecap, chunk, spur, "_live" if live else "")
+    txt = "SPECIFICATION %s\n" % ("SpecP" if record else "Spec") + IO_BASE + """  MsgId = "%s"
+  NMsgs = %d
+  MsgT <- MT
+  Msgs <- MCMsgs
+  MaxMsgLen <- MML
+  PipeCap = %d
+  ChunkMax = %d
+  SpurMax = %d
+  Record = %s
+""" % (msg, nmsgs, pipecap, chunk, spur, "TRUE" if record else "FALSE")
+    if record:
+        txt += "VIEW View\n"
+    txt += "INVARIANTS WindowInv HeadInv GuardInside DeliveredInOrder ConsumedWhole ClosedMeansAll FlushBeforeDone PipeBounded\n"
+    if live:
+        txt += "PROPERTY Terminates\n"
+    txt += "CHECK_DEADLOCK FALSE\n"
+    return {"type": "tlc-only" if not record else "tlc-replay", "module": "MCIoAsync", "cfg": name, "cfg_text": txt}
+
 IO_ASSUME = [
     "host: x86-64 little-endian; message types and contents from the catalog; streams built by the reference encoder",
     "the environment is a script of pipe outcomes; Data(n) means 'up to n bytes'; thread interleavings over a byte pipe are equivalent to chunkings (as the property states)",
@@ -200,6 +220,21 @@ PLANS.update({
                    [io_recv_cfg("UE6", 2, 8, 2, "any", False, live=True), io_send_cfg("UE6", 3, 12, 2, 1, False, live=True)]
                    + [io_recv_cfg(m, 3, 8, 2, "code", True) for m in ["UE6", "US2", "X_vu8_u8", "V_u8_u32"]]
                    + [io_send_cfg(m, 3, 12, 3, 0, True) for m in ["UE6", "US2", "X_vu8_u8", "UE1"]]),
+    "C08": io_plan("IoAsync composes the async sender task (WriteAll: pos persists across polls, flush after the last write), the receiver task and a bounded in-memory pipe under a single-threaded executor: "
+                   "PollBegin hands the thread to a task, which takes one micro-step per pipe call until a call answers Pending (pipe full / empty, or spuriously within a budget) or the task completes. "
+                   "TLC checks conservation (receiver window ++ pipe = sent stream), WindowInv, GuardInside, DeliveredInOrder, ConsumedWhole, ClosedMeansAll, FlushBeforeDone in every state of every schedule, "
+                   "and completion of both futures under fair polling; every finished poll prints its path (schedule, chunk limits, spurious Pendings), replayed with a hand-driven poller against the real async Sender/Receiver; "
+                   "after the path both tasks are polled fairly and must complete.",
+                   "one path per finished poll of the model: every interleaving of polls of the two tasks, every chunk limit up to ChunkMax, every placement of up to SpurMax spurious Pendings on poll_write / poll_flush / poll_read, pipe capacities 1, 2, 3, 5, 17; non-trivial = all",
+                   ["ioasync.polls.*complete", "ioasync.polls.spurious.*", "ioasync.polls.prefix"],
+                   [io_async_cfg("UE6", 2, 3, 3, 1, False, live=True)]
+                   + [io_async_cfg("UE6", 2, pc, ch, sp, True) for pc, ch, sp in [(1, 1, 1), (2, 2, 1), (3, 3, 2), (5, 5, 2), (17, 8, 1)]]
+                   + [io_async_cfg("US2", 2, pc, ch, 1, True) for pc, ch in [(3, 3), (5, 4)]]
+                   + [io_async_cfg("X_vu8_u8", 3, 2, 2, 1, True)],
+                   [io_async_cfg("UE6", 2, 3, 3, 2, False, live=True)]
+                   + [io_async_cfg("UE6", 3, pc, ch, sp, True) for pc, ch, sp in [(1, 1, 2), (2, 2, 2), (3, 3, 2), (5, 5, 2), (17, 12, 2)]]
+                   + [io_async_cfg(m, 2, pc, ch, 2, True) for m in ["US2", "UE1", "V_u8_u32"] for pc, ch in [(1, 1), (3, 3), (5, 4)]]
+                   + [io_async_cfg("X_vu8_u8", 3, pc, 2, 2, True) for pc in [1, 2, 5]]),
     "C10": io_plan(IO_TEXT, "receiver model fed arbitrary streams: all strings over {0,1,2,255} up to RawLen, a valid stream with one byte replaced (first 12 positions x 3 values), a valid stream truncated at every position; every chunking; non-trivial = all",
                    ["iorecv.arbitrary.*"],
                    [io_recv_cfg(m, 2, 4, 0, "code", True, arbitrary=True, rawlen=r) for m, r in [("UE6", 4), ("X_vu8_u8", 4), ("US2", 3)]],
@@ -207,9 +242,9 @@ PLANS.update({
 })
 
 META = {
-    "guard": "cargo feature `verif` of flatty-io (io hooks; not yet committed)",
+    "guard": "cargo feature `verif` of flatty-io (off by default)",
     "enable": "the harness depends on /repo by path; io hooks: flatty-io with features = [\"verif\"]",
-    "hook_commits": [],
+    "hook_commits": ["9b2ae68"],
     "engines": [
         {"name": "tlc", "path": "/verif/spec", "serves_properties": sorted(PLANS), "kind_free_text": "explicit TLA+ specification of the flat format, checked with TLC; prints one replayable case per explored state"},
         {"name": "harness", "path": "/verif/harness", "serves_properties": sorted(PLANS), "kind_free_text": "Rust replayer built against /repo's working tree: replays TLC's cases into the real API inside guard-paged memory and judges each property's projection"},
